@@ -524,7 +524,7 @@ def run(ctx):
     fkinds = ["full_mixed", "full_mailweb", "full_small_alphabet", "full_plain", "full_mixed", "full_mailweb"]
     pending = []
     for i in range(n_full):
-        cfg = of.gen_full_training(ctx.rng, fkinds[i % len(fkinds)] if i < 2 * len(fkinds) else None)
+        cfg = of.gen_full_training(ctx.rng, fkinds[i % len(fkinds)] if i < 2 * len(fkinds) else None, non_nfc=i % 6 == 3)
         r = explore_full(ctx, cfg, sc_dir, i, fbudget, 40 if i < n_cli_models else 0)
         if r is None:
             full["unusable_lists"] += 1
@@ -651,10 +651,12 @@ def run(ctx):
             corr.append(("omen-trainer-model:" + name, True, ""))
     rule = ("generated training lists (3-40 passwords, alphabets of 2-8 symbols, n-gram 2-4; families: dominated by length = "
             "n-gram, single length, mixed, alphabet smaller than the character set, duplicates, non-ASCII in utf-8 / latin-1 / "
-            "cp1251, long, empty CP, and 'extreme ratio' lists of ~100k weighted passwords in which a seen transition and a "
+            "cp1251, text that is not in Unicode normal form C - combining marks after their base letter, singletons, Hangul jamo, CJK "
+            "compatibility ideographs - next to its NFC twin (utf-8 / utf-16 / utf-16-le), long, empty CP, and 'extreme ratio' lists of ~100k weighted passwords in which a seen transition and a "
             "seen length are smoothed to the cap level 10) trained in-process with the real trainer objects and written by the real writer; per model "
             "the candidate strings are the training passwords, members of enumerated levels, walks of every boundary length "
-            "(0, 1, ngram-1, ngram, ngram+1, max-1, max, max+1, max+2), foreign-character and one-character mutations; each is "
+            "(0, 1, ngram-1, ngram, ngram+1, max-1, max, max+1, max+2), foreign-character and one-character mutations, the NFC / NFD spelling of every training password and member "
+            "that has another one; each is "
             "put to find_omen_level, OmenScorer.parse and the per-level MarkovCracker output; stage 'full': lists of 6-22 distinct "
             "strings (ordinary word+digit passwords, e-mail addresses, web sites with www./http:// prefixes, tails, upper case; "
             "n-gram 2-5, alphabet 10-100, utf-8 / latin-1 / cp1252; scorer --limit 0..0.01, --max_omen 0..12) trained by the real run_trainer; per ruleset the same "
